@@ -15,6 +15,11 @@
 //!   size-sweep: QNAME length, TSIG key-name length and advertised EDNS size
 //!              swept one octet at a time (unsigned, unknown-algorithm and
 //!              correctly signed TSIG), std catalog x 6 configurations.
+//!   query    : generated large zones `wide.` (delegations / MX / SRV RRsets
+//!              of every size 1..=20, 40 with glue) and `straddle.` (names
+//!              on either side of offset 0x4000 at 40 alignments) x
+//!              decorations (plain, EDNS, TSIG under two keys) x 6
+//!              configurations.
 //! Oracle: no panic; `Single(n)` with n <= 65535 over TCP and n <= the
 //! largest size the request can justify over UDP (512, or the advertised
 //! size of an OPT record of its additional section clamped to
@@ -70,7 +75,7 @@ const RAW_SLOTS: [(&str, usize); 2] = [("std", 0), ("malformed", 3)];
 const RAW_SLOTS_MORE: [(&str, usize); 2] = [("empty", 2), ("single", 5)];
 
 pub fn run(ctx: Ctx) -> ! {
-    let world = World::new(vec![]);
+    let world = World::new(crate::zones::large_catalogs());
     if ctx.replay_case().is_some() {
         replay(ctx, &world, verdict, RULE);
     }
@@ -78,6 +83,10 @@ pub fn run(ctx: Ctx) -> ! {
     let templates = qvlib::templates::requests();
     let mut slots = Vec::new();
     for cat in world.cat_names() {
+        if cat == "straddle" {
+            // 36 000 records that only matter to the queries written for them
+            continue;
+        }
         for cfg in &cfgs {
             slots.push(Slot::new(&world, &cat, *cfg));
         }
@@ -100,6 +109,16 @@ pub fn run(ctx: Ctx) -> ! {
     ctx.set_extra("family_size_sweep_requests", json!(sweep.len()));
     drive::run_reqs(&ctx, &world, &sweep_slots, &sweep, false, verdict);
     eprintln!("[C01] size-sweep done at {:.1}s ({} calls)", ctx.elapsed_s(), ctx.evaluations());
+
+    // (e) large generated zones (wide RRsets and delegations with glue whose
+    // address octets look like pointers; names straddling offset 0x4000):
+    // the compression scans of the writer run over long histories here.
+    for (gname, reqs) in crate::zones::large_universes() {
+        let gslots: Vec<Slot> = cfgs.iter().map(|cfg| Slot::new(&world, gname, *cfg)).collect();
+        ctx.set_extra(&format!("family_query_{gname}_requests"), json!(reqs.len()));
+        drive::run_reqs(&ctx, &world, &gslots, &reqs, false, verdict);
+    }
+    eprintln!("[C01] large-zone queries done at {:.1}s ({} calls)", ctx.elapsed_s(), ctx.evaluations());
 
     // (a) raw
     let headers = families::raw_headers();
